@@ -21,7 +21,11 @@ RULE = ("bond graphs without self-loops and without 3-membered rings in which ev
         "alternating / shuffled and in EVERY permutation when there are <= 4 dihedrals; the renamed second run is itself "
         "checked by the typing oracle. Outside the property's domain, tie only: bond lists with self-bonds (model = "
         "networkx behaviour, theorems angles_exact / dihedrals_exact evaluated on the real output). Retype additionally "
-        "on type lists with several types per element, in two atom orders. "
+        "on type lists with several types per element, in two atom orders. Every input reaches the real code in one of its "
+        "public spellings, chosen by a hash of the input (a replay uses the same): bond lists as tuples / lists / (n,2) "
+        "ndarray / numpy-integer tuples; term lists through the Atoms constructor, as python lists of tuples or lists, or "
+        "as an ndarray set on the object; UFF types as list / tuple / ndarray; exclusion as set / frozenset / set of "
+        "numpy integers (also on empty term lists); diatomic and empty bond lists; Du and Lw6+3 in the typing pools. "
         "Thorough: additionally EVERY triangle-free graph on <= 6 labelled vertices with all degrees >= 1. "
         "Non-trivial = distinct input whose graph has a branch (degree >= 3) or a ring.")
 
@@ -284,10 +288,34 @@ def rows(arr):
     return [[int(v) for v in r] for r in arr]
 
 
+SPELL = {}   # how often each public spelling of an input was used (reported in the input distribution)
+
+
+def _pick(obj, salt, options):
+    """a spelling chosen by a hash of the input itself: deterministic per input, so a replay uses the same one"""
+    k = options[int(core.sha([salt, obj]), 16) % len(options)]
+    SPELL[salt + ":" + k] = SPELL.get(salt + ":" + k, 0) + 1
+    return k
+
+
+def spell_bonds(bonds):
+    """the same bond list as the public spellings the functions accept: list of tuples, list of lists, (n,2) ndarray,
+    tuples of numpy integers"""
+    import numpy as np
+    how = _pick(bonds, "bonds-as", ["tuples", "lists", "ndarray", "np.int64-tuples"])
+    if how == "lists":
+        return [list(b) for b in bonds]
+    if how == "ndarray" and len(bonds) > 0:
+        return np.array([list(b) for b in bonds], dtype=int)
+    if how == "np.int64-tuples":
+        return [(np.int64(b[0]), np.int64(b[1])) for b in bonds]
+    return [tuple(b) for b in bonds]
+
+
 def real_enum(kind, bonds):
     f = _uff().calc_angles if kind == "angles" else _uff().calc_dihedrals
     with core.quiet():
-        return {"terms": rows(f([tuple(b) for b in bonds]))}
+        return {"terms": rows(f(spell_bonds(bonds)))}
 
 
 def real_adjacency(bonds):
@@ -309,11 +337,34 @@ def real_assign(kind, terms, uff, exclude):
     ru = _uff()
     n = len(uff)
 
+    key = [kind, terms, uff, exclude]
+    terms_as = _pick(key, "terms-as", ["constructor-ndarray", "python-list-of-tuples", "python-list-of-lists", "set-ndarray"])
+    uff_as = _pick(key, "uff-as", ["list", "tuple", "ndarray"])
+    excl_as = "none" if exclude is None else _pick(key, "exclude-as", ["set", "frozenset", "set-of-np.int64"])
+
     def f():
-        kw = {PLURAL[kind]: [tuple(t) for t in terms], kind + "_types": [0] * len(terms)}
-        a = Atoms(elements=["C"] * n, positions=np.zeros((n, 3)), **kw)
+        if terms_as == "constructor-ndarray":
+            kw = {PLURAL[kind]: [tuple(t) for t in terms], kind + "_types": [0] * len(terms)}
+            a = Atoms(elements=["C"] * n, positions=np.zeros((n, 3)), **kw)
+        else:
+            a = Atoms(elements=["C"] * n, positions=np.zeros((n, 3)))
+            if terms_as == "python-list-of-tuples":
+                setattr(a, PLURAL[kind], [tuple(t) for t in terms])
+            elif terms_as == "python-list-of-lists":
+                setattr(a, PLURAL[kind], [list(t) for t in terms])
+            else:
+                setattr(a, PLURAL[kind], np.array([list(t) for t in terms], dtype=int) if terms else np.array([]))
+        u = list(uff) if uff_as == "list" else tuple(uff) if uff_as == "tuple" else np.array(list(uff))
+        if exclude is None:
+            ex = None
+        elif excl_as == "frozenset":
+            ex = frozenset(exclude)
+        elif excl_as == "set-of-np.int64":
+            ex = set(np.int64(x) for x in exclude)
+        else:
+            ex = set(exclude)
         fn = getattr(ru, "assign_%s_types" % kind)
-        fn(a, list(uff), exclude=None if exclude is None else set(exclude))
+        fn(a, u, exclude=ex)
         return {"terms": rows(getattr(a, PLURAL[kind])), "types": [int(t) for t in getattr(a, kind + "_types")],
                 "coeffs": [str(s) for s in getattr(a, kind + "_type_coeffs")]}
     return _res(f)
@@ -761,15 +812,19 @@ def rand_uff(rng, edges, n, mode=None):
         pool = rng.sample(FRIENDLY, rng.randint(2, 6))
         out = [rng.choice(pool) for _ in range(n)]
     else:
-        pool = rng.sample(massed_keys(), rng.randint(2, 8))
+        pool = rng.sample(table_keys(), rng.randint(2, 8))
+        if rng.random() < 0.15:
+            pool += rng.sample(["Du", "Lw6+3"], rng.randint(1, 2))   # the two table keys without a tabulated element
         out = [rng.choice(pool) for _ in range(n)]
     return out, mode
 
 
 def rand_exclude(rng, terms, n, arity):
     how = rng.choice(["none", "none", "small", "terms", "terms", "terms", "subset", "all"])
-    if how == "none" or not terms:
+    if how == "none":
         return None, "none"
+    if not terms:   # nothing to exclude from: the set must simply be accepted
+        return sorted(rng.sample(range(n), rng.randint(0, n))), "on-empty-term-list"
     if how == "small":
         return sorted(rng.sample(range(n), min(n, rng.randint(0, arity - 1)))), how
     if how == "terms":
@@ -957,7 +1012,10 @@ def graph_case(ctx, bt, edges, kind, typing=True, given_uff=None):
         ex, how = rand_exclude(rng, terms, n, ARITY[k])
         ctx.count("exclude:" + how)
         check_assign(ctx, bt, k, terms, uff, ex, nt, rng=rng)
-    check_retype(ctx, bt, uff)
+    in_domain = set(uff) <= set(massed_keys())
+    if not in_domain:
+        ctx.count("retype-with-Du-or-Lw6+3(tie only: rejected)")
+    check_retype(ctx, bt, uff, oracle=in_domain)
 
 
 SP_OR_METAL = ["C_1", "C_1", "N_1", "Zr3+4", "Cu4+2", "Zn4+2", "Fe6+3", "Ti6+4"]
@@ -1174,10 +1232,24 @@ def run(ctx, oracle_only=False):
         graph_case(ctx, bt, edges, "aromatic", given_uff=types)
     # chains mixing torsion-less centres (sp, metals) with ordinary ones; dropped types listed before kept ones
     torsionless_cases(ctx, bt, ctx.n(60, 600))
+    # diatomic and empty inputs: enumerations of shape (0,), assignment of empty term lists with an exclusion set
+    for edges in ([(0, 1)], [(0, 1), (2, 3)]):
+        graph_case(ctx, bt, edges, "diatomic")
+    for kind in ("angles", "dihedrals"):
+        inp = {"op": kind, "bonds": []}
+        r = real_enum(kind, [])
+        ctx.case(inp, nontrivial=False)
+        bad = oracle_enum(kind, [], r)
+        if bad:
+            ctx.fail(bad, inp, observed=r, tags=["enum"])
+        bt.tie(inp, r)
     multigraph_cases(ctx, bt, ctx.n(60, 600))
     retype_cases(ctx, bt, ctx.n(40, 400))
     typekey_cases(ctx, bt, ctx.n(300, 3000))
     state_check(ctx)
+    for k, v in sorted(SPELL.items()):
+        ctx.dist["spelling:" + k] = ctx.dist.get("spelling:" + k, 0) + v
+    SPELL.clear()
     # types outside retype's domain (element not in the mass table): compared with the model only
     for s in (["Du", "C_3"], ["C_R", "Lw6+3", "H_"]):
         check_retype(ctx, bt, s, oracle=False)
